@@ -2,7 +2,7 @@
 """Regenerates MANIFEST.json from the table below (kept next to the driver so the two cannot drift)."""
 import json, subprocess
 
-HOOK_COMMITS = ["c341338", "65a25d2", "21b6488", "b38e07e", "74004a6"]  # abbreviated hashes in /repo
+HOOK_COMMITS = ["c341338", "65a25d2", "21b6488", "b38e07e", "74004a6", "a523ae9"]  # abbreviated hashes in /repo
 
 CLAIMED = {
  # id: (engine, category, technique, level text, level note, design ref)
